@@ -127,20 +127,29 @@ def check(schema, dropped_names=(), dropped_ids=()):
                     + '; '.join(d for _, d in det[:4])))
     # I6: keyed child collections (indexes, constraints, pointers, ... of an owner) cache the keys
     #     of their members; a by-name lookup through the owner must agree with the members' names
-    for oid, data in fs._id_to_data.items():
+    for oid in list(fs._id_to_data.keys()):
         tname = fs._id_to_type[oid]
         sclass = so.ObjectMeta.get_schema_class(tname)
-        for field in sclass.get_object_reference_fields():
-            v = data[field.index]
-            if not isinstance(v, so.ObjectIndexBase) or getattr(v, '_keys', None) is None:
-                continue
+        fields = [f for f in sclass.get_object_reference_fields()
+                  if isinstance(f.type, type) and issubclass(f.type, so.ObjectIndexBase)]
+        if not fields:
+            continue
+        try:
+            obj = schema.get_by_id(oid)
+        except Exception:
+            continue
+        for field in fields:
             try:
-                want = tuple(type(v).get_key_for(schema, schema.get_by_id(i)) for i in v._ids)
+                coll = obj.get_explicit_field_value(schema, field.name, None)
+                if coll is None or getattr(coll, '_keys', None) is None:
+                    continue
+                members = coll.objects(schema)
+                want = tuple(type(coll).get_key_for(schema, m) for m in members)
             except Exception as e:
-                out.append((f'collection-keys-unreadable:{tname}.{field.name}', f'{_name_of(fs, oid)}: {e!r}'))
+                out.append((f'collection-unreadable:{tname}.{field.name}', f'{_name_of(fs, oid)}: {e!r}'))
                 continue
-            if tuple(v._keys) != want:
-                bad = [(str(a), str(b)) for a, b in zip(v._keys, want) if a != b][:3]
+            if tuple(coll._keys) != want:
+                bad = [(str(a), str(b)) for a, b in zip(coll._keys, want) if a != b][:3]
                 out.append((f'index:collection-keys:{tname}.{field.name}',
                             f'{tname} {_name_of(fs, oid)}: the keys cached by its `{field.name}` collection differ '
                             f'from the names of the members (cached, actual): {bad}'))
